@@ -450,11 +450,19 @@ pub fn run_case(idx: u64, case: &Case, tl: Option<(&tokio::runtime::Runtime, rac
             // thread-local only: the caller can be cut while the start task (on the spawner thread) has already finished
             // pre_start. The actor then did start; the cancellation reaches it asynchronously. In that window callbacks that
             // began before the actor reached Stopped, an answered queued call and a consistent cancellation event are legitimate.
-            let started_before_cut = is_tl
-                && cut_happened
-                && recs.iter().any(|r| matches!(&r.ev, Ev::Exit { uid: SUBJ, cb: crate::trace::Cb::PreStart, how: crate::trace::How::Ok } if r.ts < t_fail + 1_000_000));
+            // (the request may also have been *picked up* by the spawner thread just before the caller was cut, with pre_start
+            // beginning a moment later - one pick in flight, rule 3.2 - or still running when the trace was read: an Enter is enough)
+            let started_before_cut = is_tl && cut_happened && recs.iter().any(|r| matches!(&r.ev, Ev::Enter { uid: SUBJ, cb: crate::trace::Cb::PreStart, .. }));
             let mut t_quiet = t_fail;
+            let mut leaked = leaked;
             if started_before_cut {
+                for _ in 0..300 {
+                    if leaked.is_some() {
+                        break;
+                    }
+                    tokio::time::sleep(std::time::Duration::from_millis(10)).await;
+                    leaked = shared.leaked.lock().unwrap().clone();
+                }
                 if let Some(l) = &leaked {
                     let _ = tokio::time::timeout(std::time::Duration::from_secs(5), l.wait(None)).await;
                     t_quiet = crate::trace::stamp();
